@@ -45,6 +45,16 @@ pub enum R {
     Err(String),
 }
 
+/// Number of post-parse operations (queries, alternative entry points) a target executed
+/// during the current call; reported by the worker with every DONE line, so that the evidence
+/// shows that the query part of a `*.queries` target really ran on accepted structures.
+pub static OPS: std::sync::atomic::AtomicU64 = std::sync::atomic::AtomicU64::new(0);
+
+#[inline]
+pub fn op() {
+    OPS.fetch_add(1, std::sync::atomic::Ordering::Relaxed);
+}
+
 fn err<E: std::fmt::Display>(e: E) -> R {
     R::Err(e.to_string())
 }
@@ -69,6 +79,9 @@ pub struct Target {
     pub family: &'static str,
     /// text format (dictionary / token mutators preferred)
     pub text: bool,
+    /// the target runs post-parse operations (counted with `op()`); the run is inconclusive
+    /// when they never ran on a mutated, accepted input
+    pub post_ops: bool,
 }
 
 fn casc<T: CascFormat>(c: &Call) -> R {
@@ -166,6 +179,16 @@ fn build_config_accessors(c: &Call) -> R {
     let _ = cfg.key_layout_entries();
     let _ = cfg.no_frame_encoding();
     let _ = cfg.vfs_entries();
+    let _ = cfg.build_name();
+    let _ = cfg.build_uid();
+    let _ = cfg.build_product();
+    let _ = cfg.build_playtime_url();
+    let _ = cfg.build_product_espec();
+    let _ = cfg.build_file_db();
+    let _ = cfg.build_partial_priority();
+    let _ = cfg.vfs_espec(0);
+    let _ = cfg.vfs_espec(u32::MAX);
+    let _ = cfg.get("root");
     match cfg.validate() {
         Ok(()) => R::Ok,
         Err(e) => err(e),
@@ -453,11 +476,17 @@ fn local_header(c: &Call) -> R {
 
 macro_rules! t {
     ($name:expr, $run:expr, $family:expr, $text:expr) => {
-        Target { name: $name, run: $run, family: $family, text: $text }
+        Target { name: $name, run: $run, family: $family, text: $text, post_ops: false }
     };
 }
 
 pub fn targets() -> Vec<Target> {
+    let mut v = base_targets();
+    v.extend(crate::queries::targets());
+    v
+}
+
+fn base_targets() -> Vec<Target> {
     vec![
         t!("blte.parse", casc::<BlteFile>, "blte", false),
         t!("blte.decompress", blte_decompress, "blte", false),
